@@ -48,6 +48,8 @@ def compare(op, impl, model):
     if len(a) != len(b) or not a:
         return False
     for x, m in zip(a, b):
+        if m == "*":      # non-zero / 0: inconsistent data, not constrained (see lean/Driver/C07.lean)
+            continue
         xv = _impl_value(x)
         if xv is None:
             return False
